@@ -37,7 +37,7 @@ func genOnce(t *rapid.T) OnceCase {
 		case "resolve":
 			op.Pre = rapid.IntRange(0, 7).Draw(t, "pre") == 0
 		case "finish":
-			op.Out = rapid.SampledFrom([]string{"value", "err", "err", "ctxerr", "wrapctxerr", "valerr"}).Draw(t, "out")
+			op.Out = rapid.SampledFrom([]string{"value", "value0", "err", "err", "ctxerr", "wrapctxerr", "valerr"}).Draw(t, "out")
 			op.Pick = rapid.IntRange(0, 3).Draw(t, "pick")
 		case "cancel":
 			op.Pick = rapid.IntRange(0, 5).Draw(t, "pick")
@@ -138,6 +138,10 @@ func body16(c *sched.Ctl, cs OnceCase, v *ev.Verdict) {
 		case "value":
 			inv.val = 100 + inv.id
 			succeeded, successVal = true, inv.val
+		case "value0":
+			// success with the zero value of T
+			inv.val = 0
+			succeeded, successVal = true, 0
 		case "valerr":
 			// a failure that also carries a (non-zero) value
 			inv.val = 100 + inv.id
@@ -291,7 +295,7 @@ func body16(c *sched.Ctl, cs OnceCase, v *ev.Verdict) {
 			}
 			inv := el[op.Pick%len(el)]
 			inv.finished = true
-			if op.Out != "value" {
+			if op.Out != "value" && op.Out != "value0" {
 				failureSeen = true
 			}
 			hm.Unlock()
